@@ -174,16 +174,23 @@ type spec struct {
 	preEmpty bool // install emptyA (pre-EIP158 style empty account)
 	collide  bool // put an account with a nonce at the creation address
 	from     int
+	cbOv     *common.Address // dedicated coinbase other than cbAddr (e.g. the address a later creation of the block targets)
 }
 
 func (s *spec) coinbase() common.Address {
 	if s.cbIdx == 3 {
+		if s.cbOv != nil {
+			return *s.cbOv
+		}
 		return cbAddr
 	}
 	return keys[s.cbIdx].Addr
 }
 
 func (s *spec) tracked() []common.Address {
+	if s.cbOv != nil {
+		return []common.Address{keys[0].Addr, keys[1].Addr, keys[2].Addr, *s.cbOv}
+	}
 	return []common.Address{keys[0].Addr, keys[1].Addr, keys[2].Addr, cbAddr}
 }
 
@@ -507,6 +514,18 @@ func judge(s *spec, m txg, res *execResult, label string) {
 				}
 				viol(kind, kind+":"+s.beh.name, fmt.Sprintf("account %d: before %s after %s expected %s (used %d price %s value %s failed %v)", i, res.pre[i],
 					res.post[i], exp[i], res.used, m.price, m.value, res.failed))
+			}
+		}
+	}
+	// J11 (single message): the committed content (copy, Commit, RawDump of the trie) carries the same tracked balances as the live objects
+	if res.postAll != nil {
+		for i, a := range s.tracked() {
+			cb := new(big.Int)
+			if x, ok := res.postAll[a]; ok {
+				cb = x.Bal
+			}
+			if cb.Cmp(res.post[i]) != 0 {
+				viol("committed-state-differs-from-live", fmt.Sprintf("msg-committed!=live:%d", i), fmt.Sprintf("account %d: committed %s, live %s", i, cb, res.post[i]))
 			}
 		}
 	}
@@ -982,47 +1001,88 @@ func oneBlock(r *hx.Rng, rules txlib.Rules) {
 	if r.Intn(8) == 0 {
 		cbIdx = r.Intn(3)
 	}
-	coinbase := cbAddr
-	if cbIdx != 3 {
-		coinbase = keys[cbIdx].Addr
-	}
-	tracked := []common.Address{keys[0].Addr, keys[1].Addr, keys[2].Addr, cbAddr}
 	var nonces [3]uint64
 	for i := range nonces {
 		nonces[i] = uint64(r.Intn(20))
 	}
 	startNonce := nonces
+	// family "coinbase = target of a failing creation": an earlier transaction pays its fee to the coinbase X, then a creation
+	// whose contract address IS X fails (top-level creation by sender 2, or an inner CREATE of the callee), then more fees follow.
+	// Judged at the block's root: what Commit writes for X must be what the live object says (fees + reward).
+	family := r.Intn(5) == 0
+	inner := family && r.Bool()
+	famAt := -1
+	cbA := cbAddr
+	if family {
+		ntx = 3 + r.Intn(3)
+		cbIdx = 3
+		famAt = 1 + r.Intn(ntx-2)
+		if inner {
+			cbA = crypto.CreateAddress(txlib.AddrN(0xc0de00+uint64(2*famAt)), 1)
+		} else {
+			cbA = crypto.CreateAddress(keys[2].Addr, nonces[2])
+		}
+	}
+	coinbase := cbA
+	if cbIdx != 3 {
+		coinbase = keys[cbIdx].Addr
+	}
+	var cbOv *common.Address
+	if family {
+		cbOv = &cbA
+	}
+	tracked := []common.Address{keys[0].Addr, keys[1].Addr, keys[2].Addr, cbA}
 	gasLimit := uint64(300000 + r.Intn(3000000))
+	if family {
+		gasLimit += 1000000
+	}
 	remaining := gasLimit
 	invalidAt := -1
-	if r.Intn(3) == 0 {
+	if !family && r.Intn(3) == 0 {
 		invalidAt = r.Intn(ntx)
 	}
 	need := [3]*big.Int{new(big.Int), new(big.Int), new(big.Int)}
 	var txs []blockTx
 	for k := 0; k < ntx; k++ {
 		from := r.Intn(3)
-		sp := &spec{rules: rules, cbIdx: cbIdx, from: from}
+		if family {
+			from = r.Intn(2) // sender 2 is reserved for the creation that targets the coinbase
+		}
 		create := r.Intn(4) == 0
 		var b behaviour
-		if create {
+		if k == famAt && !inner {
+			from, create = 2, true
+			failing := [][]byte{new(txlib.Asm).PushU(7).PushU(1).Op(txlib.SSTORE, txlib.INVALID).Bytes(), new(txlib.Asm).Op(txlib.JUMPDEST).PushU(0).Op(txlib.JUMP).Bytes(),
+				new(txlib.Asm).PushU(0).PushU(0).Op(txlib.REVERT).Bytes()}
+			w := r.Intn(3)
+			b = behaviour{name: []string{"create-at-coinbase-invalid", "create-at-coinbase-oog", "create-at-coinbase-revert"}[w], code: failing[w], wantFail: true}
+		} else if k == famAt && inner {
+			create = false
+			// MSTORE8(0, 0xfe); CREATE(value 1, mem 0, len 1) -> init code INVALID fails at the address that is the coinbase; POP; STOP
+			code := new(txlib.Asm).PushU(0xfe).PushU(0).Op(0x53).PushU(1).PushU(0).PushU(1).Op(txlib.CREATE, txlib.POP, txlib.STOP).Bytes()
+			b = behaviour{name: "inner-create-at-coinbase-fails", code: code, balance: bi(50)}
+		} else if create {
 			lib := initCodes(r, keys[from].Addr, coinbase)
 			b = lib[r.Intn(len(lib))]
 		} else {
 			lib := behaviours(r, rules, keys[from].Addr, coinbase)
 			b = lib[r.Intn(len(lib))]
 		}
+		sp := &spec{rules: rules, cbIdx: cbIdx, from: from, cbOv: cbOv}
 		sp.beh = b
 		m := txg{from: from, check: true, price: randPrice(r), value: randValue(r), nonce: nonces[from]}
 		if m.price.BitLen() > 64 {
 			m.price = bi(uint64(r.Intn(1000)))
+		}
+		if family && m.price.Sign() == 0 {
+			m.price = bi(uint64(1 + r.Intn(50)))
 		}
 		callee := txlib.AddrN(0xc0de00 + uint64(2*k))
 		if create {
 			m.data = b.code
 		} else {
 			m.to = &callee
-			if r.Intn(6) == 0 {
+			if k != famAt && r.Intn(6) == 0 {
 				t := keys[r.Intn(3)].Addr
 				m.to = &t
 			}
@@ -1032,6 +1092,9 @@ func oneBlock(r *hx.Rng, rules txlib.Rules) {
 		m.gas = ig + uint64(r.Intn(120000))
 		if r.Intn(6) == 0 {
 			m.gas = ig
+		}
+		if k == famAt {
+			m.gas = ig + 60000 + uint64(r.Intn(60000)) // enough to get into the creation
 		}
 		if k == ntx-1 && r.Intn(3) == 0 && remaining >= ig {
 			m.gas = remaining // exactly the pool remainder (upper bound: earlier txs may have given gas back, so this is ≤ the real remainder)
@@ -1179,6 +1242,7 @@ func oneBlock(r *hx.Rng, rules txlib.Rules) {
 	var toks, recs []string
 	errAt, errCls := -1, ""
 	var sumUsed uint64
+	feeSum := new(big.Int)
 	for i, tx := range stxs {
 		st.Prepare(tx.Hash(), block.Hash(), i)
 		tracer.Reset()
@@ -1204,6 +1268,7 @@ func oneBlock(r *hx.Rng, rules txlib.Rules) {
 		}
 		receipts = append(receipts, receipt)
 		sumUsed += receipt.GasUsed
+		feeSum.Add(feeSum, new(big.Int).Mul(bi(receipt.GasUsed), txs[i].m.price))
 		// J7 cumulative gas, J9 receipt format
 		if receipt.CumulativeGasUsed != sumUsed || receipt.GasUsed != gas || *usedGas != sumUsed || sumUsed > gasLimit {
 			run.Violate("cumulative-gas", "cumulative", map[string]interface{}{"rules": rules.Name, "index": i},
@@ -1223,7 +1288,7 @@ func oneBlock(r *hx.Rng, rules txlib.Rules) {
 			res.post[j] = new(big.Int).Set(st.GetBalance(a))
 			res.postN[j] = st.GetNonce(a)
 		}
-		sp := &spec{rules: rules, cbIdx: cbIdx, from: m.from, beh: txs[i].beh}
+		sp := &spec{rules: rules, cbIdx: cbIdx, from: m.from, beh: txs[i].beh, cbOv: cbOv}
 		sp.bal[m.from] = pre[m.from]
 		sp.nonce[m.from] = preN[m.from]
 		judge(sp, m, res, "block")
@@ -1245,6 +1310,49 @@ func oneBlock(r *hx.Rng, rules txlib.Rules) {
 	}
 	run.Case(in, out)
 	run.Count("blk:rules:" + rules.Name)
+	if family {
+		run.Count("blk:family:coinbase-is-target-of-failing-creation")
+		if inner {
+			run.Count("blk:family:inner-create")
+		}
+	}
+	// J11: what the block's root commits is what the live objects say (Finalise/Commit write every modified account), and the
+	// coinbase's COMMITTED balance is what it had plus the fees of the block
+	if errAt < 0 {
+		committed := txlib.DumpAll(st, rules.EIP158 || rules.Byzantium)
+		for j, a := range tracked {
+			cb := new(big.Int)
+			if x, ok := committed[a]; ok {
+				cb = x.Bal
+			}
+			if cb.Cmp(st.GetBalance(a)) != 0 {
+				who := "sender"
+				if a == coinbase {
+					who = "coinbase"
+				}
+				run.Violate("committed-state-differs-from-live", "committed!=live:"+who, map[string]interface{}{"rules": rules.Name, "case": in, "family": family},
+					fmt.Sprintf("account %d (%s): committed balance %s, live StateDB object %s", j, who, cb, st.GetBalance(a)))
+			}
+		}
+		untouched := cbIdx == 3
+		for _, t := range txs {
+			if t.beh.touches || strings.HasPrefix(t.beh.name, "partial") || (t.m.to != nil && *t.m.to == coinbase) {
+				untouched = false
+			}
+		}
+		if untouched {
+			want := new(big.Int).Add(bal[3], feeSum)
+			got := new(big.Int)
+			if x, ok := committed[coinbase]; ok {
+				got = x.Bal
+			}
+			if got.Cmp(want) != 0 {
+				run.Violate("coinbase-credit", "coinbase-credit-at-root", map[string]interface{}{"rules": rules.Name, "case": in, "family": family},
+					fmt.Sprintf("coinbase holds %s in the committed state, expected %s + fees %s", got, bal[3], feeSum))
+			}
+			run.Count("blk:coinbase-fee-judged-at-root")
+		}
+	}
 	// validity by construction (J8)
 	want := txs[len(txs)-1].m.expect
 	if want != "" && errAt < 0 {
@@ -1278,6 +1386,22 @@ func oneBlock(r *hx.Rng, rules txlib.Rules) {
 			bc.Engine().Finalize(bc, hdr, st, stxs, nil, receipts)
 			if r1, r2 := st.IntermediateRoot(rules.EIP158), st2.IntermediateRoot(rules.EIP158); r1 != r2 {
 				run.Violate("process-differs-from-loop", "process-root", map[string]interface{}{"rules": rules.Name, "case": in}, "state roots differ")
+			}
+			// re-open the state Process produced at its committed root: fees + reward must be there
+			if root, cerr := st2.Commit(rules.EIP158); cerr == nil {
+				if re, oerr := state.New(root, st2.Database()); oerr == nil {
+					for j, a := range tracked {
+						if re.GetBalance(a).Cmp(st.GetBalance(a)) != 0 {
+							who := "sender"
+							if a == coinbase {
+								who = "coinbase"
+							}
+							run.Violate("committed-state-differs-from-live", "process-committed!=live:"+who, map[string]interface{}{"rules": rules.Name, "case": in, "family": family},
+								fmt.Sprintf("account %d (%s): %s in the state re-opened at the root Process committed, %s in the live StateDB after the same transactions + Finalize",
+									j, who, re.GetBalance(a), st.GetBalance(a)))
+						}
+					}
+				}
 			}
 		}
 		// ValidateState's gas comparison
